@@ -1,14 +1,14 @@
 PROP = dict(
     coq=["Reactor/ReactorHarness.vo"],
     legs=[
-        dict(driver="reactor", binary="zreactor", quick=900, thorough=15000, shard=150,
+        dict(driver="reactor", binary="zreactor", quick=1500, thorough=15000, shard=150,
              monitors=["accounting (tokens <= cap, tracked <= tokens, equal when no call is in progress)",
                        "ledger (tracked seeds = accepted - finished)",
                        "rejected call changes nothing",
                        "closed reactor accepts nothing",
                        "delivery in send order",
                        "feedback never blocks (well-formed client)"]),
-        dict(driver="reactorc", binary="zreactor", quick=1200, thorough=20000, shard=100,
+        dict(driver="reactorc", binary="zreactor", quick=3000, thorough=24000, shard=100,
              monitors=["no deadlock (run became quiescent)",
                        "bounded in-flight seeds at every moment of the history",
                        "quiescent accounting (tokens = tracked = accepted - finished)",
